@@ -329,7 +329,7 @@ func addSwaggerUISupport(container *restful.Container) {
 
 func (s *Server) filter(request *restful.Request, response *restful.Response) {
 	args := new(schedulerapi.ExtenderArgs)
-	if err := request.ReadEntity(&args); err != nil {
+	if err := request.ReadEntity(args); err != nil {
 		glog.Error(err)
 		_ = response.WriteError(http.StatusInternalServerError, err)
 		return
@@ -353,7 +353,7 @@ func (s *Server) filter(request *restful.Request, response *restful.Response) {
 
 func (s *Server) priority(request *restful.Request, response *restful.Response) {
 	args := new(schedulerapi.ExtenderArgs)
-	if err := request.ReadEntity(&args); err != nil {
+	if err := request.ReadEntity(args); err != nil {
 		glog.Error(err)
 		_ = response.WriteError(http.StatusInternalServerError, err)
 		return
@@ -368,7 +368,7 @@ func (s *Server) priority(request *restful.Request, response *restful.Response) 
 
 func (s *Server) bind(request *restful.Request, response *restful.Response) {
 	args := new(schedulerapi.ExtenderBindingArgs)
-	if err := request.ReadEntity(&args); err != nil {
+	if err := request.ReadEntity(args); err != nil {
 		glog.Error(err)
 		_ = response.WriteError(http.StatusInternalServerError, err)
 		return
@@ -388,9 +388,13 @@ func (s *Server) bind(request *restful.Request, response *restful.Response) {
 
 func (s *Server) preempt(request *restful.Request, response *restful.Response) {
 	args := new(schedulerapi.ExtenderPreemptionArgs)
-	if err := request.ReadEntity(&args); err != nil {
+	if err := request.ReadEntity(args); err != nil {
 		glog.Error(err)
 		_ = response.WriteError(http.StatusInternalServerError, err)
+		return
+	}
+	if args.Pod == nil {
+		_ = response.WriteError(http.StatusBadRequest, fmt.Errorf("pod is required"))
 		return
 	}
 	glog.V(5).Infof("POST preempt %v+", *args)
